@@ -25,6 +25,23 @@ func main() {
 	switch os.Args[1] {
 	case "fn":
 		os.Exit(cmdFn(os.Args[2:]))
+	case "modset":
+		prog, err := LoadProg([]string{os.Args[2]})
+		if err != nil {
+			fmt.Fprintln(os.Stderr, err)
+			os.Exit(2)
+		}
+		fn := prog.FindFunc(modPath+"/"+os.Args[2], os.Args[3])
+		if fn == nil {
+			fmt.Println("not found")
+			os.Exit(2)
+		}
+		ms := prog.ModSetOf(fn)
+		fmt.Println("all:", ms.all, "unknown:", ms.unknown)
+		for _, k := range sortedKeys(ms.sites) {
+			fmt.Println(" ", k, ms.sites[k])
+		}
+		os.Exit(0)
 	case "check":
 		code := cmdCheck(os.Args[2:])
 		cleanupScratch()
